@@ -12,6 +12,7 @@ import (
 	"encoding/json"
 	"fmt"
 	"io"
+	"math"
 	"math/rand"
 	"net/http"
 	"net/http/httptest"
@@ -139,6 +140,10 @@ func attackChild(c *Ctx, id string) int {
 		rng := rand.New(rand.NewSource(c.Seed*1000 + int64(atoi(1))))
 		for i := 0; i < atoi(2); i++ {
 			cfg := scriptCfg{Workers: uint64(rng.Intn(10)), Max: uint64(1 + rng.Intn(8)), MaxFirst: rng.Intn(2) == 0, Wait: []time.Duration{0, 1, 20 * time.Microsecond}[rng.Intn(3)]}
+			if rng.Intn(6) == 0 {
+				// no limit on the workers (the default, or a limit beyond MaxInt64): the pool simply grows on demand
+				cfg.Max = []uint64{math.MaxUint64, math.MaxUint64, 1 << 63, math.MaxInt64}[rng.Intn(4)]
+			}
 			script := randomScript(rng, atoi(3))
 			if i%3 == 2 {
 				cfg.Timeout = 20 * time.Millisecond
@@ -170,6 +175,10 @@ func attackChild(c *Ctx, id string) int {
 		for i := 0; i < atoi(2); i++ {
 			cfg := scriptCfg{Workers: uint64(rng.Intn(4)), Max: uint64(1 + rng.Intn(5)), MaxFirst: rng.Intn(4) == 0, Wait: []time.Duration{0, 0, 1, 5 * time.Microsecond}[rng.Intn(4)]}
 			burst := 2 + rng.Intn(int(cfg.Max)+1)
+			if rng.Intn(6) == 0 {
+				cfg.Max = []uint64{math.MaxUint64, math.MaxUint64, 1 << 63}[rng.Intn(3)]
+				burst = 2 + rng.Intn(12)
+			}
 			cb, _ := json.Marshal(cfg)
 			logCase(fmt.Sprintf(`{"cfg":%s,"burst":%d}`, cb, burst))
 			runBurst(run, cfg, burst, id)
@@ -430,7 +439,7 @@ func (t *freeTransport) RoundTrip(req *http.Request) (*http.Response, error) {
 	}
 	t.in.Add(-1)
 	if t.errEvery > 0 && n%int64(t.errEvery) == 0 {
-		return nil, errInjected
+		return nil, nextTransportErr()
 	}
 	return &http.Response{Status: "200 OK", StatusCode: 200, Proto: "HTTP/1.1", ProtoMajor: 1, ProtoMinor: 1,
 		Header: http.Header{}, Body: io.NopCloser(strings.NewReader("ok")), Request: req}, nil
